@@ -35,7 +35,7 @@ PROPS = {
         'engines': [{'name': 'wr', 'timeout_quick': 600, 'timeout_thorough': 7200}],
         'trusted_base': [WORLD_COMPRESS],
         'assumptions': [
-            'keys are byte strings (each element < 256); block_restart_interval >= 1',
+            'keys are byte strings (each element < 256); block_restart_interval >= 1 - met by every value the setter lets through since the repair F13 (T08g_restart_interval_at_least_one over the scraped clamp; before it, interval 0 aborted the writer)',
             'compressing a block never fails (the writer asserts it)',
             'mtbl_writer_init on an existing path: model/OpenModel.v states the POSIX meaning of the open(2) flags (O_CREAT|O_EXCL fails on any existing name without following links; O_TRUNC empties); the flag list itself is scraped from the source on every run; that the kernel implements this meaning is validated by the driver on regular/empty/symlink/dangling-symlink/directory targets',
             'the clause "the finished file holds exactly the accepted entries" is checked on the implementation with the extracted independent decoder; its theorem is T09/T01 (reader side)',
